@@ -40,6 +40,21 @@ def step : List String → String
     | some limit, some price => s!"used={limit} pay={limit * price} refund=0"
     | _, _ => "bad-op"
   | "deploy" :: _ => "ok"
+  | ["cpay", mg, gas, fee, base, tip] =>
+    -- a delivered Cosmos transaction: refused when the declared fee is below the floor, when (fee market in force) its
+    -- price per gas is below the base fee, or when — carrying the dynamic-fee option — what it would be charged is below
+    -- the floor
+    (match mg.toNat?, gas.toNat?, fee.toNat? with
+     | some mg, some gas, some fee =>
+       let tipO : Option Nat := if tip == "-" then none else tip.toNat?
+       if base == "nil" then (if cosmosFloorAccept mg gas fee then "accept" else "reject")
+       else match base.toNat? with
+         | some b =>
+           if gas = 0 then "bad-op"
+           else if fee / gas < b then "reject"
+           else if cosmosFloorAcceptTx true mg gas fee b tipO then "accept" else "reject"
+         | none => "bad-op"
+     | _, _, _ => "bad-op")
   | _ => "bad-op"
 
 end Haqq.Driver.C07
